@@ -2,15 +2,61 @@ import os, subprocess, sys
 from common import ROOT, REPO, GOENV, LEAN
 
 def pre(run):
-    """regenerate lean/GPy/C06/Generated.lean from parser/grammar.y (written only when the content changes)"""
+    """regenerate lean/GPy/C06/Generated.lean (cascade test..power) and lean/GPy/C06/GeneratedRules.lean (shape + action
+    fingerprints of every modelled rule, grammar.y against y.go) from the repository (written only when the content changes);
+    the nonterminals whose rule differs from the checked-in baseline facts/C06.rules.tsv (= what lean/GPy/C06/RulePins.lean
+    pins) go to C06_ESCALATE: the Lean generator multiplies the generation for them"""
+    from common import WORK
     out = os.path.join(LEAN, "GPy", "C06", "Generated.lean")
-    p = subprocess.run(["go", "run", ".", "-grammar", os.path.join(REPO, "parser", "grammar.y"), "-out", out],
+    rules_out = os.path.join(LEAN, "GPy", "C06", "GeneratedRules.lean")
+    tsv = os.path.join(WORK, "C06.rules.tsv")
+    base = os.path.join(ROOT, "facts", "C06.rules.tsv")
+    os.makedirs(WORK, exist_ok=True)
+    try:
+        os.remove(tsv)
+    except OSError:
+        pass
+    p = subprocess.run(["go", "run", ".", "-grammar", os.path.join(REPO, "parser", "grammar.y"), "-out", out,
+                        "-ygo", os.path.join(REPO, "parser", "y.go"), "-rules-out", rules_out, "-rules-tsv", tsv],
                        cwd=os.path.join(ROOT, "extract", "yaccfacts"), env=GOENV, stdout=subprocess.PIPE, stderr=subprocess.STDOUT, text=True)
     run.cov["yaccfacts"] = p.stdout.strip()[-400:]
     if p.returncode != 0:
-        # tie lost: the extractor no longer understands the grammar shape
-        run.violation({"kind": "extractor", "broken": "extract/yaccfacts cannot read the cascade test..power of parser/grammar.y",
-                       "output": p.stdout[-800:]}, nofail=True)
+        # tie lost: the extractor no longer understands the grammar shape, or grammar.y and y.go disagree on a rule
+        mism = [l[len("yaccfacts: RULE MISMATCH "):].split(": the action")[0] for l in p.stdout.splitlines() if l.startswith("yaccfacts: RULE MISMATCH ")]
+        run.cov["rules_ygo_mismatch"] = mism[:50]
+        if mism:
+            broken = "parser/y.go is not what goyacc generates from parser/grammar.y: the semantic actions disagree for " + "; ".join(mism[:10])
+        else:
+            broken = "extract/yaccfacts cannot read parser/grammar.y / parser/y.go (cascade test..power or the rule list)"
+        run.say("yaccfacts FAILED: " + broken)
+        run.violation({"kind": "extractor", "broken": broken, "output": p.stdout[-1600:]}, nofail=True)
+
+    def load(path):
+        d = {}
+        try:
+            for l in open(path):
+                f = l.rstrip("\n").split("\t", 1)
+                if len(f) == 2:
+                    d[f[0]] = f[1]
+        except OSError:
+            return None
+        return d
+    want, got = load(base), load(tsv)
+    if want is None or got is None:
+        changed = ["all"]  # no facts: explore everything harder
+        run.say(f"rule facts missing ({'baseline ' + base if want is None else 'extractor output ' + tsv}): escalating everything")
+    else:
+        changed = [nt for nt in list(want) + [n for n in got if n not in want] if want.get(nt) != got.get(nt)]
+    run.cov["rules_modelled"] = len(got or {})
+    run.cov["rules_changed"] = changed
+    if changed:
+        os.environ["C06_ESCALATE"] = ",".join(changed)
+        run.say("grammar rules changed against the pinned baseline (RulePins.lean / facts/C06.rules.tsv): " + ", ".join(changed) +
+                " -> generation escalated (C06_ESCALATE)")
+    else:
+        os.environ.pop("C06_ESCALATE", None)
+        run.say(f"grammar rules: all {len(got)} modelled nonterminals match the pinned baseline; y.go agrees with grammar.y on every rule" if p.returncode == 0
+                else "grammar rules: no modelled nonterminal differs from the pinned baseline")
 
 
 CONFIG = {
@@ -22,18 +68,25 @@ CONFIG = {
             "(delete/insert) every single-token deletion and seeded single-token insertions of valid expressions: SyntaxError or exactly the tree the Lean grammar assigns; "
             "(indent/indent-tree/lexedge) seeded block trees rendered with free indentation widths, tabs, blank/comment lines, bracket continuation lines and backslash continuation: token stream of parser.LexString and tree of ParseString; (illegal/legal/tree) texts outside the grammar; "
             "(stmt) 234 hand-written legal statement texts covering every statement kind and layout; (stmt-illegal) 296 illegal statement texts incl. the repaired K01/K02/K03 families; (stmt-mut) every single-character deletion of the legal texts; (stmt-rand) seeded statement trees of depth <= 3 x 3 layouts: tree and accept/reject verdict DERIVED by the Lean statement grammar GPy.C06.Stmt. "
+            "(xsub) ALL subscript lists of <= 2 items (and the index/slice mixtures of 3) over a plain index and the 8 presence patterns of lower/upper/step, every spelling of the empty sliceop (a:b and a:b:), with and without trailing comma, 2 text styles; "
+            "(xlist) EVERY comma-separated list of the 3.4 grammar with 0/1/2/3 items with and without trailing comma against the tree or SyntaxError the reference rules of XGen.lean state: subscriptlist, parenthesised tuple, list/set/dict displays, arglist (positional; keyword / *args / **kwargs tails where 3.4 forbids the comma; illegal argument orders; bare generator-expression arguments), top-level testlist, yield value, comprehension exprlist, lambda varargslist and def typedargslist (comma only after plain/defaulted parameters), testlist_star_expr as target and value, chained assignment, augmented assignment value, return, for target / for iterable, del (bare and parenthesised), global, nonlocal, import, from-import with and without parentheses, with items, class bases, decorator arguments, assert; "
+            "(xctx) every one-hole context of the new constructors (Subscript with Index/Slice/ExtSlice, keyword/star/kwargs calls, set/dict displays, the four comprehensions with several for/if clauses, lambda with full parameter syntax, yield / yield from, starred items) and of the old operators x 30 fillers, each in minimal, fully parenthesised and seeded layouts (depth <= 2 exhaustively); (xrand) seeded trees of the enlarged type of depth <= 4 x 4 layouts; (xmut) every single-token deletion of renderings of the new forms: SyntaxError or exactly the tree the Lean grammar GPy.C06.X assigns. "
             "non-trivial = every case (each text reaches the lexer state machine and at least one literal/operator/indentation decision); distinct = distinct input lines",
     "trusted_base": [
         "Lean 4.33.0 kernel; axioms allowed: propext, Classical.choice, Quot.sound (audited per theorem on every run)",
         "lean/GPy/C06/Spec.lean: my transcription of the Python 3.4 reference: escape table (2.4.1), integer literals (2.4.4), operator precedence table (6.15) and the printer `render` (token level: minimal parentheses + any redundant ones, trailing commas); the round-trip theorem is about this printer",
         "lean/GPy/C06/Model.lean: hand transliteration of parser/stringescape.go DecodeEscape, parser/lexer.go (refill, countIndent, Lex state machine, readNumber, readString, readIdentifier, readOperator) and a cascade parser driven by Generated.table; tied to the repo by the correspondence run only",
         "lean/GPy/C06/Stmt.lean: hand transliteration of the statement rules of parser/grammar.y (file_input ... suite, typedargslist, decorators) and of their semantic actions (setCtx, default order, bare *, try shapes, augmented-assignment targets); no theorems about it, tied by the correspondence run only",
+        "lean/GPy/C06/X.lean: hand transliteration, rule by rule, of the WHOLE expression grammar of parser/grammar.y (atom, trailer, subscriptlist/subscripts/subscript/sliceop, arglist/arguments/argument, dictorsetmaker, comp_for/comp_if/comp_iter, lambdef/lambdef_nocond/varargslist, yield_expr, star_expr, exprlist, testlist; cascade driven by Generated.table) with its semantic actions; XSpec.lean: the reference printer of the enlarged tree type (partial functions, generator side only); tied to the repo by the correspondence run only; theorems cover its list loop X.listLoop and the actions reading the trailing-comma flag (Lists.lean), the mutual block is anchored by kernel evaluations at witnesses",
+        "lean/GPy/C06/GeneratedRules.lean: regenerated from parser/grammar.y AND parser/y.go on every run by extract/yaccfacts: right-hand sides and action fingerprints of 89 nonterminals (the extractor fails when an action of y.go differs from its grammar.y action after normalising $$/$N/yyVAL/yyDollar; one recorded gofmt exception); RulePins.lean pins every rule by decide, a changed rule sets C06_ESCALATE for the generator",
         "lean/GPy/C06/Generated.lean: regenerated from parser/grammar.y by extract/yaccfacts on every run; y.go (the LALR tables goyacc generated from grammar.y) is tied by the correspondence run only",
         "Go: strconv.ParseUint/ParseFloat, math/big SetString, regexp leftmost-first semantics, bufio ReadString, unicode/utf8 as documented; unicode.In category tables are NOT modelled (three sample non-ASCII letters only)",
         "harness/c06.go (reflective tree walker, canonical S-expressions, float canonicalisation through the shortest round-trip decimal) and checks/common.py",
     ],
     "assumptions": [
-        "the Lean expression parser (Model.lean section 5, the object of parse_render_roundtrip) covers the expression fragment (all binary/unary/boolean/comparison operators, conditional, lambda with plain parameters, calls with positional arguments, subscripts by index, attributes, tuple/list displays, adjacent string literals, top-level testlist); comprehensions, slices, keyword/star arguments, dict/set displays, yield are covered by spec-vs-implementation cases only (no Lean grammar)",
+        "the Lean expression parser (Model.lean section 5, the object of parse_render_roundtrip) covers the expression fragment (all binary/unary/boolean/comparison operators, conditional, lambda with plain parameters, calls with positional arguments, subscripts by index, attributes, tuple/list displays, adjacent string literals, top-level testlist); comprehensions, slices, keyword/star arguments, dict/set displays, yield, starred items are in the second Lean grammar GPy.C06.X (tree type XE), about which only the list-layer theorems (list_loop_roundtrip, trailing_comma_irrelevant_or_significant, subscript_list_tree) and kernel evaluations are proved; the full round trip over XE is tied by correspondence",
+        "3.4 quirk not generated: an unparenthesised generator expression AFTER *args (f(*s, x for x in y)) is legal in 3.4 (ast_for_call) and rejected by gpython (as by Python >= 3.5)",
+        "annotations (def f(a: int) -> int), star items in load context beyond tuple/list displays, and statement-level uses of the new expression forms beyond the xlist texts are not generated",
         "parse_render_roundtrip is a theorem about token lists (Spec.render -> parseEvalToks); the text level (spacing, comments, continuation lines, literal spellings -> tokens) is tied by the correspondence run (lex_render is not proved), except integer literals (int_literal_value*) and string escapes (decode_escape_spec*)",
         "line/column positions of tokens and nodes are not compared",
         "float literals: the value is the exact decimal m*10^e; the binary rounding is strconv's and is compared through the shortest round-trip decimal (literals of <= 15 significant digits only)",
